@@ -80,12 +80,16 @@ let () =
 
   register "inffeed" (fun f ->
     let len = int_of_string f.(1) in
-    match inf_feed_guard (n_of_int len) with
+    (* third field: octets behind the end of the deflate stream, in the same feed: the stream's content is delivered,
+       then the feed is refused because input is left over that the inflater will never consume *)
+    let trail = if Array.length f > 2 then int_of_string f.(2) else 0 in
+    match inf_feed_guard (n_of_int (len + trail)) with
     | Refuse -> "final=R\tout=0"
-    | Proceed n ->
-      let n = int_of_n n in
-      let k = (n + 65539) / 65540 in
-      Printf.sprintf "final=A\tout=%d" (n - 5 * k));
+    | Proceed _ ->
+      let k = (len + 65539) / 65540 in
+      let content = if len >= 5 then len - 5 * k else 0 in
+      if trail > 0 then Printf.sprintf "final=R\tout=%d" content
+      else Printf.sprintf "final=A\tout=%d" content);
 
   register "keymax" (fun f ->
     let site = f.(1) and spec = f.(2) in
